@@ -8,7 +8,7 @@ import (
 
 const (
 	shrinkMaxExec = 400
-	shrinkMaxTime = 120 * time.Second
+	shrinkMaxTime = 60 * time.Second
 )
 
 // shrinkAndPackage minimises a failing (case, tapes) pair while the same
